@@ -78,6 +78,9 @@ class C13(Check):
             n_sh = 4 if nd == 2 else 8
             for s in range(n_sh):
                 out.append(("crop",) + spec + (s, n_sh))
+        # one image with a very LONG axis (indices of the order 1e5: an overshoot of one pixel is tiny relative to them)
+        out.append(("cropbig", "Image", (3, 150000), 1, "uint8", 0, 1))
+        out.append(("cropbig", "MaskedImage", (120000, 3), 1, "uint8", 0, 1))
         for c in (1, 2, 3, 4, 5):
             for dt in ("uint8", "float64"):
                 out.append(("patch", "Image", (7, 8), c, dt))
@@ -120,7 +123,7 @@ class C13(Check):
             "ref_lm": lm,
             "kind": kind,
             "level": 0,
-            "shard": (root[5], root[6]) if part == "crop" else None,
+            "shard": (root[5], root[6]) if part in ("crop", "cropbig") else None,
         }
         return st
 
@@ -131,6 +134,20 @@ class C13(Check):
     def ops(self, st, level):
         if st["part"] == "crop":
             return self._crop_ops(st, level)
+        if st["part"] == "cropbig":
+            if level > 0:
+                return []
+            shp = st["ref_px"].shape[1:]
+            ax = int(np.argmax(shp))
+            S = shp[ax]
+            out = []
+            for lo, hi in ((0.0, float(S)), (10.0, S + 1.0), (10.0, S + 0.4), (-1.0, 100.0), (1.4, S - 2.5), (S - 5.0, S + 2.0)):
+                for con in (False, True):
+                    mn = [0.0, 0.0]
+                    mx = [float(x) for x in shp]
+                    mn[ax], mx[ax] = lo, hi
+                    out.append(("crop", tuple(mn), tuple(mx), con))
+            return out
         return self._patch_ops(st) if level == 0 else []
 
     def _crop_ops(self, st, level):
@@ -269,6 +286,8 @@ class C13(Check):
                 fails.append(Failure(where, "input-mutated", d))
         if not inside and not con:
             self.note("%s:refused-expected" % where)
+            if st["part"] == "cropbig" and np.any(hi == S + 1):
+                self.note("cropbig:one-past-the-far-edge")
             if verify and not isinstance(exc, ImageBoundaryError):
                 got = "returned shape %s" % (res.pixels.shape,) if res is not None else repr(exc)
                 sides = "low side out on axes %s, high side out on axes %s" % (np.nonzero(lo < 0)[0].tolist(), np.nonzero(hi > S)[0].tolist())
@@ -607,7 +626,7 @@ class C13(Check):
 
     # ------------------------------------------------------------------ reporting
     def vacuity(self, notes, stats):
-        need = ["crop:refused-expected", "crop:wholly-outside", "crop:inside", "crop:clipped", "crop_to_true_mask:inside", "extract:outside-filled", "extract:sample0-c1", "extract:sample0-c5", "extract:slice-c4", "roundtrip:c5", "extract-frac:points-checked", "extract-single:o0-nearest", "extract-single:o1-constant", "extract-reused:o0", "extract-reused:o1"]
+        need = ["cropbig:one-past-the-far-edge", "crop:refused-expected", "crop:wholly-outside", "crop:inside", "crop:clipped", "crop_to_true_mask:inside", "extract:outside-filled", "extract:sample0-c1", "extract:sample0-c5", "extract:slice-c4", "roundtrip:c5", "extract-frac:points-checked", "extract-single:o0-nearest", "extract-single:o1-constant", "extract-reused:o0", "extract-reused:o1"]
         for route in ("crop_to_landmarks", "crop_to_pointcloud", "crop_to_landmarks_proportion", "crop_to_pointcloud_proportion"):
             need += ["%s:refused-expected" % route, "%s:clipped" % route, "%s:inside" % route]
         if True:
